@@ -161,7 +161,8 @@ def run(module: str, cfg: str | None = None, *, workdir: str | None = None,
         out = p.stdout + p.stderr
         r = parse_output(out, p.returncode, wall, " ".join(cmd))
         if not r.ok and not r.violated:
-            raise MachineryError("TLC failed without a property verdict:\n" + out[-4000:])
+            i = out.find("Error:")
+            raise MachineryError("TLC failed without a property verdict:\n" + (out[i:i + 3000] if i >= 0 else out[-3000:]))
         return r
     finally:
         if own and not keep:
